@@ -295,6 +295,21 @@ func genC03(g *genCtx) {
 		head := r.pick([]string{"", "/*/", "//", "*/", "//a/"})
 		g.add(&Case{Kind: "sel", Doc: d, Ctx: pickNodeCtx(r, d), Expr: head + st + "[" + pr + "]"})
 	}
+	// a positional first predicate followed by comparison / count / string-test predicates, on input paths that carry them too
+	for i := 0; i < g.scale(3000, 30000); i++ {
+		d := pool[r.intn(len(pool))]
+		pr := func() string {
+			return r.pick([]string{"@k = @m", "@k != @a", "a = b", "* < @k", "@k >= '1'", "'2' > @a", "count(*) = 1", "count(@*) > 1", "contains(@k, '1')", "local-name() = 'a'", "not(count(*))", "b < c or @k"})
+		}
+		pos := r.pick([]string{"1", "2", "3", "last()", "last() - 1", "position() = 2", "position() < 3", "position() = last()", "position() > 1"})
+		head := r.pick([]string{"", "/*/", "*/", "//a/", "/*[" + pr() + "]/", "*[" + pr() + "]/", "//*[" + pr() + "]/"})
+		st := r.pick([]string{"a", "b", "*", "node()"})
+		e := head + st + "[" + pos + "][" + pr() + "]"
+		if r.chance(1, 3) {
+			e += "[" + pr() + "]"
+		}
+		g.add(&Case{Kind: "sel", Doc: d, Ctx: pickNodeCtx(r, d), Expr: e})
+	}
 	// the proximity position must not depend on what the same compiled expression saw before: positional
 	// expressions evaluated in turn on two documents of the same shape with different numbers of candidates
 	genShapeHistories(g, g.scale(400, 4000), []string{"/r/l/i[last()]", "//i[position() = last()]", "l/i[last() - 1]", "//l/i[position() < last()]",
@@ -1293,6 +1308,27 @@ func genC11(g *genCtx) {
 			e = "//@* | //text() | " + a
 		default:
 			e = a + " | " + b
+		}
+		g.add(&Case{Kind: "sel", Doc: d, Ctx: pickCtx(r, d), Expr: e})
+	}
+	// operands and sequence members that carry the comparison / count / string-test predicates of the C02 fragment
+	for i := 0; i < g.scale(3000, 30000); i++ {
+		d := pool[r.intn(len(pool))]
+		pr := func() string {
+			return r.pick([]string{"@k = @a", "@k != @b", "a = b", "* < @k", "@k >= '1'", "'2' > @a", "count(*) = 1", "count(@*) > 1", "contains(@k, 'a')", "starts-with(local-name(), 'a')",
+				"local-name() = 'a'", "not(count(*))", "a = '1' or @k < @a", "contains(@k, @a)"})
+		}
+		op := func() string { return r.pick([]string{"//*", "*", "//a", "/*/*", "descendant::*", "//" + r.pick(tests)}) + "[" + pr() + "]" }
+		var e string
+		switch r.intn(4) {
+		case 0:
+			e = op() + " | " + op() + " | " + genPathPF(r, 1, tests)
+		case 1:
+			e = r.pick([]string{"//*", "/*", "."}) + "/(" + r.pick(tests) + "[" + pr() + "], " + r.pick(tests) + "[" + pr() + "])"
+		case 2:
+			e = "(" + op() + ")[" + pr() + "] | " + op()
+		default:
+			e = op() + " | " + op()
 		}
 		g.add(&Case{Kind: "sel", Doc: d, Ctx: pickCtx(r, d), Expr: e})
 	}
